@@ -188,13 +188,17 @@ Section Model.
     let cols := transpose (vmap (renorm S) m) in
     vdiff S (rescale S (mag2 S (vx cols)) (vy cols)) (rescale S (scal S (vx cols) (vy cols)) (vx cols)).
 
-  Definition adjust_raw (m : M3 T) : M3 T :=
+  (* the three new columns, before the 1e-10 clip *)
+  Definition adjust_cols (m : M3 T) : M3 T :=
     let cols := transpose (vmap (renorm S) m) in
     let c1' := renorm S (adj_c1pre m) in
     let c0' := renorm S (vx cols) in
     let vp := renorm S (vect S c0' c1') in
     let c2' := if sltb S 0! (scal S vp (vz cols)) then vp else rescale S (-! 1!) vp in
-    transpose (vmap (vmap clip) (mkV c0' c1' c2')).
+    mkV c0' c1' c2'.
+
+  Definition adjust_raw (m : M3 T) : M3 T :=
+    transpose (vmap (vmap clip) (adjust_cols m)).
 
   (* the places where Python would raise ZeroDivisionError *)
   Definition adjust_divzero (m : M3 T) : bool :=
@@ -344,6 +348,21 @@ Section Model.
     | Some (o1, m1), Some (o2, m2) =>
         Some (vlist (vadd S (mapply S m2 o1) o2) ++ mlist (mmul3 m2 m1))
     | _, _ => None
+    end.
+
+  (* CellConversion.develop_lattice, the fill transformation of one lattice
+     element: trnsf = (translation of the element, identity); the cell's own
+     fill transformation is composed FIRST (a82b50a), otherwise the cell's TRCL
+     chain is composed in front of the translation.  None = compose_transform
+     would raise (malformed lists) *)
+  Definition lattice_filltr (filltr : list T) (trcls : list (list T)) (transl : V3 T)
+    : option (list T) :=
+    let trnsf := vlist transl ++ ident9 in
+    match filltr with
+    | _ :: _ => compose_transform filltr trnsf
+    | [] =>
+        fold_left (fun acc trcl => match acc with Some t => compose_transform trcl t | None => None end)
+                  trcls (Some trnsf)
     end.
 
   (* ---------------- ConversionSurfaceMCNPToT4 ---------------- *)
@@ -522,4 +541,48 @@ Section Model.
   (* a (signed) reference in a cell resolved against the dictionary *)
   Definition resolve_ref (r : Z) (table : list (Z * list (msurf T * Z))) : res (list (msurf T * Z)) :=
     lookup (Z.abs r) table.
+  (* ---------------- CellConversion.pot_transform / apply_trcl ---------------- *)
+  (* the cell expression after parsing: signed surface leaves, cell references,
+     '^' complement nodes, '*' / ':' operators *)
+  Inductive gop := GInter | GUnion.
+  Inductive gtree := GSurf (n : Z) | GCell (n : Z) | GCompl (n : Z) | GOp (op : gop) (args : list gtree).
+
+  (* conversion state: the last surface key handed out (new_surf_key) and
+     dic_surf_mcnp *)
+  Definition pstate := (Z * list (Z * list (msurf T * Z)))%type.
+
+  (* one surface leaf: a NEW surface per transformed leaf, holding every part
+     of the old one moved by the transformation; the sign of the leaf is kept *)
+  Definition pot_leaf (tr : list T) (n : Z) (st : pstate) : res (gtree * pstate) :=
+    bind (lookup (Z.abs n) (snd st)) (fun parts =>
+    bind (tr_all tr parts) (fun parts' =>
+      let k := (fst st + 1)%Z in
+      Ok (GSurf (if (0 <=? n)%Z then k else (- k)%Z), (k, (k, parts') :: snd st)))).
+
+  (* pot_transform: complements stay, operators are walked left to right, cell
+     references are outside this model (cell_transform recursion): EType *)
+  Fixpoint pot_transform (tr : list T) (t : gtree) (st : pstate) : res (gtree * pstate) :=
+    match tr with
+    | [] => Ok (t, st)
+    | _ =>
+      match t with
+      | GSurf n => pot_leaf tr n st
+      | GCell _ => Err EType
+      | GCompl n => Ok (GCompl n, st)
+      | GOp op args =>
+          let fix walk (l : list gtree) (st : pstate) : res (list gtree * pstate) :=
+            match l with
+            | [] => Ok ([], st)
+            | a :: r =>
+                bind (pot_transform tr a st) (fun ast =>
+                bind (walk r (snd ast)) (fun rst => Ok (fst ast :: fst rst, snd rst)))
+            end in
+          bind (walk args st) (fun r => Ok (GOp op (fst r), snd r))
+      end
+    end.
+
+  (* apply_trcl: the cell's TRCL list, one after the other *)
+  Definition apply_trcl (trcls : list (list T)) (t : gtree) (st : pstate) : res (gtree * pstate) :=
+    fold_left (fun acc tr => bind acc (fun ts => pot_transform tr (fst ts) (snd ts))) trcls (Ok (t, st)).
+
 End Model.
